@@ -9,7 +9,7 @@
    that the real blocks are distinct, and all assignment / swap / allocator paths, are decided
    by the correspondence check (DESIGN.md, C12). *)
 From Coq Require Import ZArith List Bool.
-From Cntgs Require Import Base Layout Mem Vector Proxy Elem World Spec Rep ElemThm.
+From Cntgs Require Import Base Layout Mem Vector Proxy Elem World Spec Rep ElemThm AssignThm.
 Import ListNotations.
 Local Open Scope Z_scope.
 
@@ -21,6 +21,47 @@ Theorem C12_element_from_reference_is_deep_copy : forall L, wf_plist L = true ->
   e_bid el = Some nb /\ e_aid el = aid /\ e_units el = units L (elem_end L a t - a).
 Proof. exact elem_from_ref_spec. Qed.
 Print Assumptions C12_element_from_reference_is_deep_copy.
+
+(* copies and assignments between elements, for trivially constructible and destructible
+   value types: the target ends up holding exactly the source's tuple in a block of its
+   own / in the block it took over; on the re-allocating path whatever the target held before
+   (also nothing: a moved-from element) and whatever its size *)
+Theorem C12_element_copy_construction : forall L, wf_plist L = true -> all_ctriv L = true ->
+  forall src t fc aid junk nb, tuple_ok L fc 0 t -> elem_holds L src t ->
+  let '(d, evs) := elem_copy L src aid junk nb in
+  elem_holds L d t /\ e_bid d = Some nb /\ e_aid d = aid /\ e_units d = e_units src.
+Proof. exact elem_copy_spec. Qed.
+Print Assumptions C12_element_copy_construction.
+
+Theorem C12_element_copy_assignment_reallocating : forall L, wf_plist L = true ->
+  all_ctriv L = true -> all_dtriv L = true ->
+  forall pocca ae d src t fc junk nb, tuple_ok L fc 0 t -> elem_holds L src t ->
+  (fixed_or_plain L && (negb pocca || ae) && match e_bid d with Some _ => true | None => false end) = false ->
+  let '(d', evs, nb') := elem_copy_assign pocca ae L d src junk nb in
+  elem_holds L d' t /\ e_bid d' = Some nb /\ e_aid d' = (if pocca then e_aid src else e_aid d) /\
+  e_units d' = e_units src.
+Proof. exact elem_copy_assign_general_spec. Qed.
+Print Assumptions C12_element_copy_assignment_reallocating.
+
+(* ... and on the field-wise path (FixedSize / plain lists, every value type category and
+   every shape of the run table): the target keeps its block and holds the source's tuple *)
+Theorem C12_element_copy_assignment_fieldwise : forall L, wf_plist L = true ->
+  forall pocca ae d src ts td fcs fcd junk nb,
+  tuple_ok L fcs 0 ts -> tuple_ok L fcd 0 td -> cnts_of td = cnts_of ts ->
+  elem_holds L src ts -> elem_holds L d td ->
+  (fixed_or_plain L && (negb pocca || ae) && match e_bid d with Some _ => true | None => false end) = true ->
+  let '(d', evs, nb') := elem_copy_assign pocca ae L d src junk nb in
+  elem_holds L d' ts /\ e_bid d' = e_bid d /\ e_units d' = e_units d /\
+  e_aid d' = (if pocca then e_aid src else e_aid d) /\ nb' = nb.
+Proof. exact elem_copy_assign_fieldwise_spec. Qed.
+Print Assumptions C12_element_copy_assignment_fieldwise.
+
+Theorem C12_element_move_assignment_stealing : forall L pocma d src t, elem_holds L src t ->
+  let '(d', src', evs) := elem_steal pocma L d src in
+  elem_holds L d' t /\ e_bid d' = e_bid src /\ e_bid src' = None /\
+  e_aid d' = (if pocma then e_aid src else e_aid d).
+Proof. exact elem_steal_spec. Qed.
+Print Assumptions C12_element_move_assignment_stealing.
 
 (* swap exchanges the complete contents (blocks and references), the allocators only with POCS *)
 Theorem C12_swap_exchanges : forall pocs a b,
